@@ -35,10 +35,10 @@ var mapExceptions = map[string]mapException{
 	"graph.*Graph.TrimTree:range cur.In": {why: "the loop picks the single parent: len(cur.In) == 1 is asserted (panic otherwise) immediately before the loop", verify: func(c *Check, s *mapSite) string {
 		return precededByLenAssert(c, s, "cur.In")
 	}},
-	"graph.*Graph.String:range n.In":  {why: "debugging dump (Graph.String), not part of any report format; not reachable from driver.PProf", verify: verifyGraphStringUnreachable},
-	"graph.*Graph.String:range n.Out": {why: "debugging dump (Graph.String), not part of any report format; not reachable from driver.PProf", verify: verifyGraphStringUnreachable},
+	"graph.*Graph.String:range n.In":   {why: "debugging dump (Graph.String), not part of any report format; not reachable from driver.PProf", verify: verifyGraphStringUnreachable},
+	"graph.*Graph.String:range n.Out":  {why: "debugging dump (Graph.String), not part of any report format; not reachable from driver.PProf", verify: verifyGraphStringUnreachable},
 	"graph.isRedundantEdge:range n.In": {why: "breadth-first reachability: the set of visited nodes and the boolean result are the same for every visiting order (the function returns a constant as soon as the source is met and false when the closure is exhausted)"},
-	"profile.cpuProfile:range addr1": {why: "at most one address can reach the majority threshold count >= n - n/32 (two keys would need 2(n - n/32) <= n), so the element that triggers the break is unique"},
+	"profile.cpuProfile:range addr1":   {why: "at most one address can reach the majority threshold count >= n - n/32 (two keys would need 2(n - n/32) <= n), so the element that triggers the break is unique"},
 }
 
 func runC08(c *Check) {
@@ -320,10 +320,10 @@ func verifyGraphStringUnreachable(c *Check, s *mapSite) string {
 func (c *Check) graphConsumers() {
 	p := c.P
 	reviewed := map[string]string{
-		"newTrimmedGraph": "calls g.SortNodes before returning (checked below); before that only Sum (integer), set construction and tree trimming",
-		"PrintAssembly":   "nodes are grouped per symbol; each group is summed (integers) and sorted by annotateAssembly (Sort(AddressOrder)) before use",
-		"printSource":     "nodes are grouped by function name / file; representatives are sorted (NameOrder/FileOrder) and used only through the grouping key; groups are only summed per line",
-		"MakeWebList":     "node list only feeds address-keyed maps and integer sums (makeSourcePrinter)",
+		"newTrimmedGraph":   "calls g.SortNodes before returning (checked below); before that only Sum (integer), set construction and tree trimming",
+		"PrintAssembly":     "nodes are grouped per symbol; each group is summed (integers) and sorted by annotateAssembly (Sort(AddressOrder)) before use",
+		"printSource":       "nodes are grouped by function name / file; representatives are sorted (NameOrder/FileOrder) and used only through the grouping key; groups are only summed per line",
+		"MakeWebList":       "node list only feeds address-keyed maps and integer sums (makeSourcePrinter)",
 		"makeSourcePrinter": "node list only feeds address-keyed maps and integer sums",
 	}
 	ng := p.Func("internal/report", "(*Report).newGraph")
